@@ -147,7 +147,12 @@ TraceBuiltG ==
                   (s.pos = SampleFromG(g, cfg, gd).pos /\ s.neg = SampleFromG(g, cfg, gd).neg)>>,
              <<"DRIFT.calls_left", ~ok \/ run.drift \/ complete>>}))
 
-Next == TraceNewG \/ TraceSwapG \/ TraceGetItem \/ TraceGroupCM \/ TraceStartG \/ TraceDraw \/ TraceBuiltG
+(* a scripted outcome of the model could not be replayed: conformance drift, never a verdict      *)
+TraceScriptDrift ==
+  /\ IsEvent("ScriptDrift") /\ UNCHANGED <<store, raw, run>>
+  /\ Report(Log[l], {"DRIFT.scripted_replay_follows_model"})
+
+Next == TraceNewG \/ TraceSwapG \/ TraceGetItem \/ TraceGroupCM \/ TraceStartG \/ TraceDraw \/ TraceBuiltG \/ TraceScriptDrift
 Spec == Init /\ [][Next]_vars
 AllConsumed == TLCGet("stats").diameter - 1 = Len(Log)
 =============================================================================
